@@ -65,15 +65,16 @@ Proof. exact step_panic_contained. Qed.
 Print Assumptions C09_step_panic_contained.
 
 (** Failing actions: the state after a step is the result of applying ALL
-    actions up to and including the first flow-setting one ([executed]),
-    failed or not; and the step has an issue with coordinate action#n exactly
-    when the n-th of them, applied to the state left by ALL its predecessors,
-    returned an error or panicked. *)
+    actions up to and including the first flow-setting one ([executed acts c];
+    whether an action sets the flow is decided on the state left by its
+    predecessors), failed or not; and the step has an issue with coordinate
+    action#n exactly when the n-th of them, applied to the state left by ALL
+    its predecessors, returned an error or panicked. *)
 Theorem C09_action_failure_contained : forall acts c,
-  snd (fst (spec_actions acts 0 c)) = apply_all (executed acts) c /\
+  snd (fst (spec_actions acts 0 c)) = apply_all (executed acts c) c /\
   forall n, In (ICAction (Z.of_nat n)) (fst (fst (fst (spec_actions acts 0 c)))) <->
-            exists a, nth_error (executed acts) n = Some a /\
-                      result_of a (apply_all (firstn n (executed acts)) c) <> Ok tt.
+            exists a, nth_error (executed acts c) n = Some a /\
+                      result_of a (apply_all (firstn n (executed acts c)) c) <> Ok tt.
 Proof. exact action_failure_contained. Qed.
 Print Assumptions C09_action_failure_contained.
 
@@ -109,15 +110,18 @@ Theorem C09_measured_concat : forall fam root c fuel st log d,
 Proof. exact measured_concat. Qed.
 Print Assumptions C09_measured_concat.
 
-(** A flow switch skips the rest of the step: when the current step's actions
-    are [pre ++ a :: post], nothing in [pre] sets the flow and [a] does (to
-    [g]), the NextStep call logs the whole action list but its state, measured
-    data and issues are those of [pre ++ [a]] alone — [post] has no influence —
-    and the next step to be executed is the first step of [g]. *)
-Theorem C09_flow_switch_skips_rest : forall fam st log sid pre a post g more,
+(** A flow switch skips the rest of the step: when the current step (of any
+    kind: static, merged, conditional ...) asks for the actions
+    [pre ++ a :: post], nothing in [pre] sets the flow when run from the
+    current state and [a], applied to the state [pre] leaves, does (to [g]),
+    the NextStep call logs the whole action list but its state, measured data
+    and issues are those of [pre ++ [a]] alone — [post] has no influence — and
+    the next step to be executed is the first step of [g]. *)
+Theorem C09_flow_switch_skips_rest : forall fam st log sid body pre a post g more,
   sized fam -> uint_ok st ->
-  remaining fam st = (sid, SStatic (pre ++ a :: post)) :: more ->
-  Forall (fun x => sets_flow x = None) pre -> sets_flow a = Some g ->
+  remaining fam st = (sid, body) :: more ->
+  actions_of body (ms_core st) = Ok (pre ++ a :: post) ->
+  first_switch pre (ms_core st) = None -> sets_flow a (apply_all pre (ms_core st)) = Some g ->
   exists st' e, next_step fam st log = Ok (st', log ++ [e], true) /\
     remaining fam st' = flow_steps fam g /\
     e_actions e = pre ++ a :: post /\
@@ -126,6 +130,80 @@ Theorem C09_flow_switch_skips_rest : forall fam st log sid pre a post g more,
     e_issues e = fst (fst (fst (spec_actions (pre ++ [a]) 0 (ms_core st)))) ++ snd (actor_part (ms_core st')).
 Proof. exact switch_skips_rest. Qed.
 Print Assumptions C09_flow_switch_skips_rest.
+
+(** Function-based set-flow ([SetFlowFromFunc] / [SetFlowFunc]).  The step
+    only hands the function on: building the action list never calls it, so
+    nothing the function does (choose by state, panic) can show at that
+    point ... *)
+Theorem C09_set_flow_func_step_lazy : forall id fn c,
+  actions_of (SSetFlowFunc id fn) c = Ok [ASetFlowFunc id fn].
+Proof. exact set_flow_func_step_lazy. Qed.
+Print Assumptions C09_set_flow_func_step_lazy.
+
+(** ... the flow is chosen when the action is applied, i.e. on the state left
+    by ALL the actions applied before it in the same step ([apply_all pre c],
+    not [c]); when the function panics nothing is switched by this action and
+    the remaining actions decide ... *)
+Theorem C09_set_flow_func_late : forall pre id fn post idx c,
+  first_switch pre c = None ->
+  snd (spec_actions (pre ++ ASetFlowFunc id fn :: post) idx c) =
+    match eval_ffun fn (apply_all pre c) with
+    | Ok g => Some g
+    | _ => first_switch post (apply_all pre c)
+    end.
+Proof. exact set_flow_func_late. Qed.
+Print Assumptions C09_set_flow_func_late.
+
+(** ... a panicking function is an issue of that ACTION (not of the step) ... *)
+Theorem C09_set_flow_func_issue : forall id fn c,
+  result_of (ASetFlowFunc id fn) c <> Ok tt <-> (forall g, eval_ffun fn c <> Ok g).
+Proof. exact set_flow_func_issue. Qed.
+Print Assumptions C09_set_flow_func_issue.
+
+(** ... and this is what the code-shaped machine does: NextStep on a step
+    asking for [pre ++ SetFlowFunc fn :: post] continues at the first step of
+    the flow [fn] returns for the state after [pre]. *)
+Theorem C09_set_flow_func_machine : forall fam st log sid body pre id fn post g more,
+  sized fam -> uint_ok st ->
+  remaining fam st = (sid, body) :: more ->
+  actions_of body (ms_core st) = Ok (pre ++ ASetFlowFunc id fn :: post) ->
+  first_switch pre (ms_core st) = None ->
+  eval_ffun fn (apply_all pre (ms_core st)) = Ok g ->
+  exists st' e, next_step fam st log = Ok (st', log ++ [e], true) /\
+    remaining fam st' = flow_steps fam g /\
+    ms_core st' = apply_all pre (ms_core st).
+Proof. exact set_flow_func_machine. Qed.
+Print Assumptions C09_set_flow_func_machine.
+
+(** The hypotheses of the four statements above are satisfiable, and resolving
+    the function early (on the state at the start of the step) would give a
+    different run: the merged step sets actor 5 and then chooses by actor. *)
+Definition demo_func : family :=
+  [ (0, [ (10, SMerge [Some (SSetActor (Some 5));
+                       Some (SSetFlowFunc 1 (FIf (CActorIs (Some 5)) (FFlow 1) (FFlow 2)));
+                       Some (SSetActor (Some 7))]);
+          (11, SStatic [ATPMMeasure 1 ROk]) ]);
+    (1, [ (12, SStatic [ATPMMeasure 2 ROk]) ]);
+    (2, [ (13, SStatic [ATPMMeasure 3 ROk]) ]) ].
+
+Example C09_demo_func :
+  let c0 := mkCore None [] (Some true) in
+  let fn := FIf (CActorIs (Some 5)) (FFlow 1) (FFlow 2) in
+  sized demo_func /\ stratified demo_func = true /\
+  actions_of (SMerge [Some (SSetActor (Some 5)); Some (SSetFlowFunc 1 fn); Some (SSetActor (Some 7))]) c0
+    = Ok ([ASetActor (Some 5)] ++ ASetFlowFunc 1 fn :: [ASetActor (Some 7)]) /\
+  first_switch [ASetActor (Some 5)] c0 = None /\
+  eval_ffun fn (apply_all [ASetActor (Some 5)] c0) = Ok 1 /\
+  eval_ffun fn c0 = Ok 2 /\
+  map e_sid (fst (exec_flow demo_func 0 c0)) = [10; 12] /\
+  c_actor (snd (exec_flow demo_func 0 c0)) = Some 5 /\
+  (exists st, run 4 demo_func (init_state 0 c0) [] = Ok (st, fst (exec_flow demo_func 0 c0), true)
+              /\ ms_flow st = 1).
+Proof.
+  split; [apply sized_b_sound; reflexivity|].
+  repeat (split; [vm_compute; reflexivity|]).
+  eexists. split; vm_compute; reflexivity.
+Qed.
 
 (** The hypotheses are satisfiable by a family that exercises every clause:
     flow 0 fails, panics, measures, then switches in the middle of a step;
